@@ -127,7 +127,11 @@ def parse_kv(line):
             d[k] = v
         i += 1
     if i < len(toks):
-        d['obj'] = toks[i + 1:]
+        rest = toks[i + 1:]
+        if rest and rest[-1].startswith('indet='):
+            d['indet'] = rest[-1][6:]
+            rest = rest[:-1]
+        d['obj'] = rest
     return d
 
 
@@ -673,6 +677,153 @@ def check_C02(res):
     finish_codec(res)
 
 
+def check_C17(res):
+    pipe = Pipe(res)
+    tr = pipe.regenerate()
+    if not tr['ok']:
+        return finish_codec(res)
+    summary = tr['summary']
+    regres = pipe.checks()
+    res.checker_cmd = 'cd lean && lake build Blf.Props.C17 && lake env lean <#print axioms>'
+    pipe.lean(['Blf.Props.C17', 'blfdriver'], {'Blf.Props.C17': ['Blf.Props.C17_factory', 'Blf.Props.C17_factory_total',
+              'Blf.Props.C17_factory_classes_translated', 'Blf.Props.C17_ctor', 'Blf.Props.C17_defaults_determined',
+              'Blf.Props.C17_fresh_wellformed', 'Blf.Props.C17_default_roundtrip', 'Blf.Gen.exact_all']})
+    coverage_obligations(pipe, res, summary, regres)
+    cls = {c['name']: c for c in summary['classes']}
+    tables = summary.get('tables', {})
+    exe = pipe.harness('codec_harness', ['codec_harness.cpp'])
+    drv = lib.driver_exe()
+    if exe is None or not os.path.exists(drv):
+        return finish_codec(res)
+    rng = random.Random(lib.seed() * 31 + 3)
+    codes = list(range(0, 256)) + [256, 257, 65535, 65536, 2 ** 31 - 1, 2 ** 31, 2 ** 32 - 1] + [rng.randrange(0, 2 ** 32) for _ in range(60 if res.tier == 'quick' else 2000)]
+    reqs = ['factory %d' % c for c in codes]
+    names = [c['name'] for c in summary['classes']]
+    reqs += ['dflt ' + n for n in names]
+    reqs += ['enc ' + n + ' ' for n in names if n != 'LogContainer']
+    mod, rc, err = lib.session(drv, reqs)
+    imp, rc2, err2 = lib.session(exe, reqs)
+    if len(mod) != len(reqs) or len(imp) != len(reqs):
+        res.oblige('D:sessions', False, 'driver %d, harness %d answers for %d requests %s' % (len(mod), len(imp), len(reqs), err2[-500:]))
+        return finish_codec(res)
+    res.corr['programs'] = len(names)
+    dis = compare_codec(res, reqs, mod, imp, summary)
+    # factory answers are compared verbatim by compare_codec (answers differ -> disagreement)
+    res.corr['disagreements'] = len(dis)
+    res.oblige('D:factory-defaults-correspondence', not dis, '%d disagreements' % len(dis))
+    for d in dis[:20]:
+        res.violation('model-vs-implementation', 'C17 correspondence: ' + '; '.join(d['why']), d)
+    res.corr['distinct'] = len(set(reqs))
+    res.corr['rule'] = 'createObject for every code 0..255, boundary and random 32-bit codes; default object of every class built in memory pre-filled with 0xAA/0x55/0xFF; distinct = distinct requests'
+    res.corr['samples'] = [{'request': r, 'impl': b[:200]} for r, b in list(zip(reqs, imp))[64:67]]
+    # property oracle on the implementation
+    spec = {}
+    for l in open(os.path.join(VERIF, 'spec', 'object_types.tsv')):
+        if l.strip() and not l.startswith('#'):
+            k, _, v = l.rstrip('\n').split('\t')
+            spec[int(k)] = v
+    for r, b in zip(reqs, imp):
+        t = b.split()
+        if r.startswith('factory'):
+            code = int(t[1])
+            want = spec.get(code, 'none')
+            if t[2] != want:
+                res.violation('factory', 'createObject(%d) yields %s, the format assigns %s' % (code, t[2], want),
+                              {'class': want if want != 'none' else t[2], 'failure': 'factory-code', 'code': code, 'request': r})
+        elif r.startswith('dflt'):
+            cn = r.split()[1]
+            d = parse_kv(b)
+            code = int(d.get('type', -1))
+            if spec.get(code) != cn:
+                res.violation('ctor', '%s() carries type code %d, which the factory maps to %s' % (cn, code, spec.get(code, 'nothing')),
+                              {'class': cn, 'failure': 'ctor-code', 'code': code, 'request': r})
+            ind = [x for x in d.get('indet', '').split(',') if x]
+            if ind:
+                fn = [cls[cn]['fields'][int(i)]['name'] for i in ind]
+                res.violation('defaults', '%s(): members %s depend on previous memory contents' % (cn, fn),
+                              {'class': cn, 'failure': 'indeterminate-default', 'fields': fn, 'request': r})
+    # the computed exception lists must be findings too (they are what the theorems exclude)
+    for n, t in tables.items():
+        if not t['ctorOk']:
+            res.violation('ctor', '%s: constructor code not mapped back by the factory (model tables)' % n, {'class': n, 'failure': 'ctor-code'})
+        if not t['allInit']:
+            res.violation('defaults', '%s: member without initialiser (model tables)' % n, {'class': n, 'failure': 'indeterminate-default'})
+    finish_codec(res)
+
+
+def check_C14(res):
+    pipe = Pipe(res)
+    tr = pipe.regenerate()
+    if not tr['ok']:
+        return finish_codec(res)
+    summary = tr['summary']
+    regres = pipe.checks()
+    res.checker_cmd = 'cd lean && lake build Blf.Props.C14 && lake env lean <#print axioms>'
+    pipe.lean(['Blf.Props.C14', 'blfdriver'], {'Blf.Props.C14': ['Blf.Props.C14_no_indeterminate', 'Blf.Props.C14_arrays_init',
+                                                                   'Blf.Props.C14_filler_zero']})
+    tables = summary.get('tables', {})
+    cls = {c['name']: c for c in summary['classes']}
+    exe = pipe.harness('codec_harness', ['codec_harness.cpp'])
+    drv = lib.driver_exe()
+    if exe is None or not os.path.exists(drv):
+        return finish_codec(res)
+    import codecgen
+    rng = random.Random(lib.seed() * 131 + 9)
+    g = codecgen.ObjGen(summary, rng)
+    base = []
+    names = [c['name'] for c in summary['classes'] if c['name'] != 'LogContainer']
+    nper = 2 if res.tier == 'quick' else 12
+    for n in names:
+        base.append((n, {}))
+        for _ in range(nper):
+            base.append((n, g.obj(n, 'payload')))
+    outs = {}
+    runs = 0
+    for fill in ('0', '190', '255'):
+        reqs = []
+        for pat in (0x00, 0xAA, 0xFF):
+            for n, a in base:
+                reqs.append('encp %d %s %s' % (pat, n, ' '.join('%d=%s' % (i, b.hex()) for i, b in sorted(a.items()))))
+        imp, rc, err = lib.session(exe, reqs, env={'ASAN_OPTIONS': 'detect_leaks=0:allocator_may_return_null=1:malloc_fill_byte=%s:max_malloc_fill_size=1048576' % fill})
+        if len(imp) != len(reqs):
+            res.oblige('D:harness-session', False, '%d answers for %d requests %s' % (len(imp), len(reqs), err[-500:]))
+            return finish_codec(res)
+        runs += 1
+        for k, (r, b) in enumerate(zip(reqs, imp)):
+            res.corr['requests'] += 1
+            key = k % len(base)
+            d = parse_kv(b)
+            outs.setdefault(key, set()).add((d.get('halt'), d.get('out')))
+    res.corr['programs'] = len(names)
+    res.corr['distinct'] = len(base)
+    res.corr['rule'] = 'every class: default object and payload-only (API style) objects, each encoded in 3 fresh processes (heap fill 0x00/0xbe/0xff) x 3 placement poison patterns; distinct = distinct objects; a failure is an object with more than one encoding'
+    res.corr['samples'] = [{'object': '%s %s' % (base[k][0], {i: v.hex()[:40] for i, v in base[k][1].items()}), 'encodings': len(v)} for k, v in list(outs.items())[:3]]
+    nondet = {}
+    for k, v in outs.items():
+        if len(v) > 1:
+            nondet.setdefault(base[k][0], k)
+    res.corr['objects_with_several_encodings'] = sum(1 for v in outs.values() if len(v) > 1)
+    for cn, k in nondet.items():
+        res.violation('nondeterministic', '%s: the same object encodes differently depending on previous memory contents' % cn,
+                      {'class': cn, 'failure': 'nondeterministic-encoding', 'object': {i: v.hex() for i, v in base[k][1].items()}, 'encodings': sorted(str(x)[:300] for x in outs[k])})
+    for n, t in tables.items():
+        if not t['inputsInit']:
+            res.violation('nondeterministic', '%s: the encoder reads a member without initialiser (model tables)' % n, {'class': n, 'failure': 'nondeterministic-encoding'})
+        if not t['arraysInit']:
+            res.violation('nondeterministic', '%s: array member without initialiser (model tables)' % n, {'class': n, 'failure': 'indeterminate-array'})
+    # correspondence of the model itself: model encodings equal the implementation's for determined classes
+    reqs = ['enc %s %s' % (n, ' '.join('%d=%s' % (i, b.hex()) for i, b in sorted(a.items()))) for n, a in base]
+    mod, rc, err = lib.session(drv, reqs)
+    imp, rc, err = lib.session(exe, reqs)
+    if len(mod) == len(reqs) == len(imp):
+        dis = compare_codec(res, reqs, mod, imp, summary)
+        res.corr['disagreements'] = len(dis)
+        res.oblige('D:codec-correspondence', not dis, '%d disagreements' % len(dis))
+        for d in dis[:20]:
+            res.violation('model-vs-implementation', 'codec correspondence: ' + '; '.join(d['why']), d)
+    finish_codec(res)
+
+
 def finish_codec(res):
     def kfilter(v, kf):
         pl = v.get('payload', {})
@@ -684,7 +835,7 @@ def finish_codec(res):
     sys.exit(finish(res, kfilter))
 
 
-PROPS = {'C03': check_C03, 'C02': check_C02}
+PROPS = {'C03': check_C03, 'C02': check_C02, 'C17': check_C17, 'C14': check_C14}
 
 
 def main():
